@@ -11,7 +11,7 @@ from ..gen import tagexpr as T
 
 ID = "C07"
 LEVEL = "exploration"
-UNIVERSE = ["a", "b", "a.b", "x-y", "k=v", "A", "ab"]
+UNIVERSE = ["a", "b", "a.b", "x-y", "k=v", "A", "ab", "a,b"]      # (a tag may contain a comma: "a,b" is ONE tag, not a and b)
 OPERANDS = ["a", "b", "a.b", "x-y", "k=v", "A", "a*", "?.b", "[ab]"]
 OPERANDS_SMALL = ["a", "a*", "x-y"]
 RANDOM_OPERANDS = OPERANDS + ["*", "*.b", "[!a]", "a?", "k=*", "[a-b]*", "ab", "not_a", "and_b", "oreo"]
@@ -26,7 +26,7 @@ ASSUMPTIONS = [
     "third-party cucumber_tag_expressions is part of the executed system (as installed in /venv)",
 ]
 REQUIRED = {"v2.meaning": {"quick": 3000, "thorough": 100000}, "v2.print_roundtrip": {"quick": 3000, "thorough": 100000},
-            "v2.config_substitution": 100, "v2.empty_selects_all": 3, "v2.list_form": 300}
+            "v2.config_substitution": 100, "v2.empty_selects_all": 3, "v2.list_form": 300, "v2.wip_adds_wip_term": 100}
 REQUIRED_SEEN = {"config_list_shape": ["placeholder_after_plain_part", "other"]}
 EXHAUSTIVE = {"quick": True, "thorough": True}
 EXHAUSTIVE_SCOPE = "all binary and/or/not trees up to the leaf bound over the operand set, complete truth tables"
@@ -146,6 +146,36 @@ def check_config(lab, mon, cfg_ast, rest_ast, rng, tmpl_index, as_list):
         else:
             lab.P.use(saved)
 
+WIP_UNIVERSE = ["a", "b", "wip", "wip.x", "x-y"]
+WIP_SUBSETS = list(T.subsets(WIP_UNIVERSE))
+
+
+def check_wip(lab, mon, rng):
+    """--wip and-s the term @wip to whatever --tags says -- also when the --tags terms themselves mention @wip / @wip.x."""
+    from behave.configuration import Configuration
+    ast = T.random_tree(rng, ["a", "b", "wip", "wip.x", "x-y", "wip*"], rng.choice([0, 1, 2]), nary=True)
+    as_list = ast[0] == "and" and rng.random() < 0.4
+    texts = T.render_v2_list(ast, rng, "inner", True) if as_list else [T.render_v2(ast, rng, rng.choice(["min", "full"]), True)]
+    want = T.truth_table(["and", ast, ["lit", "wip"]], WIP_SUBSETS)
+    case = {"kind": "wip", "tags": texts}
+    mon.case(case, True)
+    saved = getattr(lab.P, "_current", None)
+    try:
+        config = Configuration(["--wip"] + ["--tags=%s" % t for t in texts], load_config=False, tag_expression_protocol=lab.P.V2)
+        got = T.truth_table_of(config.tag_expression.check, WIP_SUBSETS)
+        mon.check("v2.wip_adds_wip_term", got == want, lambda: dict(case=case, want=want, got=got, final=str(config.tag_expression)))
+    except Exception as ex:
+        mon.check("v2.wip_adds_wip_term", False, dict(case=case, error=repr(ex)))
+    finally:
+        if saved is None:
+            if hasattr(lab.P, "_current"):
+                try:
+                    delattr(lab.P, "_current")
+                except Exception:
+                    lab.P.use(lab.P.DEFAULT)
+        else:
+            lab.P.use(saved)
+
 
 def run(spec, mon):
     lab = Lab()
@@ -200,6 +230,7 @@ def run(spec, mon):
         c = T.random_tree(rng, OPERANDS, rng.choice([0, 1, 2]), nary=True)
         r = T.random_tree(rng, OPERANDS, rng.choice([0, 1, 2]), nary=True)
         check_config(lab, mon, c, r, rng, j % len(TEMPLATES), as_list=("multi" if j % 3 == 1 else (j % 3 == 0)))
+        check_wip(lab, mon, rng)
     if shard == 0:
         ast = ["and", ["or", ["lit", "a"], ["not", ["glob", "a*"]]], ["not", ["lit", "k=v"]]]
         mon.sample({"ast": ast, "text": T.render_v2(ast, rng, "min", True),
